@@ -3,6 +3,7 @@ Unicode predicates of CPython's `str`, as table look-ups over `Mistune.Generated
 every run from the running interpreter, so model and implementation use the same Unicode version).
 -/
 import Mistune.Util
+import Mistune.Rx
 import Mistune.Generated.Unicode
 namespace Mistune
 open Mistune.Generated
@@ -16,6 +17,10 @@ def isSpaceNat (n : Nat) : Bool := inRanges spaceRanges n
 
 /-- `str.isspace()` for one character. -/
 def isSpace (c : Char) : Bool := isSpaceNat c.toNat
+
+/-- the Unicode category tests of CPython `str` patterns -/
+def pyCats : CatTables :=
+  { isDigit := NatTree.rangeMem digitTree, isSpace := isSpaceNat, isWord := NatTree.rangeMem wordTree }
 
 def foldNat (n : Nat) : Option (List Nat) := foldTree.lookup n
 
